@@ -24,9 +24,10 @@ import types
 
 
 def p_expr(e):
-    if "lit" in e:
-        return '"%s"' % e["lit"]
-    return e["var"]
+    base = '"%s"' % e["lit"] if "lit" in e else e["var"]
+    if e.get("tick"):
+        return '%s|vf_tick:"%s"' % (base, e["tick"])  # C06: user code (a filter) inside a tag ARGUMENT; the value is unchanged
+    return base
 
 
 def p_kwargs(kw):
@@ -223,6 +224,14 @@ def build(program, rec, opts=None, name_prefix=""):
                 return None
 
             attrs["on_render_after"] = on_render_after
+        if hooks.get("tpl"):
+            # the template comes from the get_template() hook (user code that is called with the Context)
+            def get_template(self, context, _n=spec["name"], _src=src):
+                rec.visit("tpl:%s" % _n)
+                return _src
+
+            attrs["get_template"] = get_template
+            del attrs["template"]
         if spec.get("js") is not None:
             attrs["js"] = spec["js"]
         if spec.get("css") is not None:
